@@ -527,18 +527,38 @@ class Session:
             self.decls.append(d)
             return None
         store = _class_store(self.conn)
+        obj = class_object(d)
         try:
             if self.via == 'CreateClass':
                 self.calls += 1
-                self.conn.CreateClass(class_object(d))
+                self.conn.CreateClass(obj)
             else:
                 self.calls += 2
                 self.conn.CreateClass(placeholder_object(d))
-                self.conn.ModifyClass(class_object(d))
+                self.conn.ModifyClass(obj)
         except Exception as exc:   # noqa: classified below
             if store.object_exists(d['name']):
                 store.delete(d['name'])
             return _status(exc)
+        # the class object is the caller's: the server neither changes it (resolution works on the
+        # server's copy) nor keeps parts of it (what the caller does to it later is his business)
+        iso = None
+        if obj != class_object(d):
+            iso = '%s-changed-the-class-object-of-the-caller' % self.via
+        elif len(self.decls) <= 1:
+            for el in list(obj.properties.values()) + list(obj.methods.values()):
+                el.qualifiers['Scribble'] = CIMQualifier('Scribble', 'x')
+            obj.qualifiers['Scribble'] = CIMQualifier('Scribble', 'x')
+            self.calls += 1
+            got = self.conn.GetClass(d['name'], LocalOnly=False, IncludeQualifiers=True)
+            if 'Scribble' in got.qualifiers or any(
+                    'Scribble' in el.qualifiers
+                    for el in list(got.properties.values()) + list(got.methods.values())):
+                iso = '%s-keeps-parts-of-the-class-object-of-the-caller' % self.via
+        if iso:
+            if store.object_exists(d['name']):
+                store.delete(d['name'])
+            return ('raised', iso)
         self.decls.append(d)
         return None
 
